@@ -1,6 +1,8 @@
 import EE.Props.C02
 import EE.Model.Render
 import EE.Props.C05
+import EE.Props.C11
+import EE.Lemmas.Relex
 /-! # C12 — `expr()` output re-parses to the same tree
 
 `expr()` decides, node by node, which operands to parenthesise (`needParen*` in `Model/Render`,
@@ -23,6 +25,11 @@ open EE EE.Spec EE.Spec.CST EE.Props.C02
 
 def pwrap (b : Bool) (c : CST) : CST := if b then .paren c else c
 
+/-- `x OP y` ↦ `x not OP y` -/
+def notFlip : CST → CST
+  | .bin _ o l r => .bin true o l r
+  | c => c
+
 mutual
 /-- the expression `expr()` writes for a tree -/
 def exprCst (regs : Regs) : AST → CST
@@ -31,7 +38,9 @@ def exprCst (regs : Regs) : AST → CST
   | .lit (.str s) => .atom (.str s)
   | .ref n => .atom (.ref n)
   | .call n args => .call n (exprCstList regs args)
-  | .unary op rhs => .unary op (pwrap (needParenUnary rhs) (exprCst regs rhs))
+  | .unary op rhs =>
+    if op = notName ∧ isBinary rhs then notFlip (exprCst regs rhs)
+    else .unary op (pwrap (needParenUnary regs rhs) (exprCst regs rhs))
   | .binary op l r => .bin false op (pwrap (needParenLeft regs op l) (exprCst regs l)) (pwrap (needParenRight regs op r) (exprCst regs r))
   | .postfix l op => .postfix (pwrap (needParenPostfix l) (exprCst regs l)) op
   | .ternary c a b => .tern (pwrap (isTernary c) (exprCst regs c)) (exprCst regs a) (exprCst regs b)
@@ -80,7 +89,15 @@ theorem strip_exprCst (regs : Regs) : ∀ t : AST, Producible regs t → (exprCs
   | .lit (.str s), _ => rfl
   | .ref n, _ => rfl
   | .call n args, h => by simp only [exprCst, CST.strip, strip_exprCstList regs args h]
-  | .unary op rhs, h => by simp only [exprCst, CST.strip, strip_pwrap, strip_exprCst regs rhs h.2]
+  | .unary op rhs, h => by
+    have ih := strip_exprCst regs rhs h.2
+    by_cases hnf : op = notName ∧ isBinary rhs = true
+    · obtain ⟨rfl, hb⟩ := hnf
+      cases rhs <;> simp [isBinary] at hb
+      simp only [exprCst, isBinary, and_self, if_true, notFlip, CST.strip, wrapNot] at ih ⊢
+      simp only [Bool.false_eq_true, if_false] at ih
+      rw [ih]
+    · simp only [exprCst, hnf, if_false, CST.strip, strip_pwrap, ih]
   | .binary op l r, h => by simp only [exprCst, CST.strip, strip_pwrap, strip_exprCst regs l h.2.1, strip_exprCst regs r h.2.2, wrapNot]; rfl
   | .postfix l op, h => by simp only [exprCst, CST.strip, strip_pwrap, strip_exprCst regs l h.2]
   | .ternary c a b, h => by
@@ -100,12 +117,46 @@ end
 
 /-- the shape of what `exprCst` returns, by the shape of the tree -/
 theorem exprCst_shape (regs : Regs) (t : AST) (h : Producible regs t) :
-    ((exprCst regs t).isTern = isTernary t) ∧ ((exprCst regs t).root? = match t with | .binary op _ _ => some op | _ => none) := by
+    ((exprCst regs t).isTern = isTernary t) ∧ ((exprCst regs t).root? = astRoot t) := by
   cases t with
   | lit l => cases l <;> exact ⟨rfl, rfl⟩
   | stmt _ => exact h.elim
   | none => exact h.elim
+  | unary op rhs =>
+    by_cases hnf : op = notName ∧ isBinary rhs = true
+    · obtain ⟨rfl, hb⟩ := hnf
+      cases rhs <;> simp [isBinary] at hb
+      simp [exprCst, isBinary, notFlip, isTern, root?, isTernary, astRoot, binRoot]
+    · simp only [exprCst, hnf, if_false, isTern, root?, isTernary, astRoot]
+      refine ⟨trivial, ?_⟩
+      by_cases ho : op = notName
+      · simp only [ho, if_true]
+        cases rhs <;> first | rfl | (simp [isBinary, ho] at hnf)
+      · simp [ho]
   | _ => exact ⟨rfl, rfl⟩
+
+theorem astBp_root (regs : Regs) (t : AST) : astBp regs t = (astRoot t).map regs.bp := rfl
+
+theorem astRoot_infix {regs : Regs} {t : AST} (h : Producible regs t) {o : Name} (hr : astRoot t = some o) : regs.isInfix o = true := by
+  cases t with
+  | binary op l r => simp only [astRoot, Option.some.injEq] at hr; subst hr; exact h.1
+  | unary op rhs =>
+    simp only [astRoot] at hr
+    split at hr
+    · cases rhs with
+      | binary o2 l r => simp only [binRoot, Option.some.injEq] at hr; subst hr; exact h.2.1
+      | _ => simp [binRoot] at hr
+    · cases hr
+  | _ => simp [astRoot] at hr
+
+theorem astRoot_not_tern {t : AST} {o : Name} (hr : astRoot t = some o) : isTernary t = false := by
+  cases t <;> simp_all [astRoot, isTernary]
+
+theorem primary_of_shape {c : CST} (h1 : c.root? = none) (h2 : c.isTern = false) : c.isPrimary = true := by
+  cases c <;> simp_all [root?, isTern, isPrimary]
+
+theorem canon_notFlip {regs : Regs} {c : CST} (h : Canon regs c) : Canon regs (notFlip c) := by
+  cases c <;> simpa [notFlip, Canon] using h
 
 theorem canon_pwrap {regs : Regs} {b : Bool} {c : CST} (h : Canon regs c) : Canon regs (pwrap b c) := by
   cases b <;> simpa [pwrap, Canon] using h
@@ -123,14 +174,24 @@ theorem expr_cst_canonical (regs : Regs) (tb : TableOK regs) : ∀ t : AST, Prod
   | .stmt _, h => h.elim
   | .none, h => h.elim
   | .unary op rhs, h => by
-    simp only [exprCst, Canon]
-    refine ⟨h.1, ?_, canon_pwrap (expr_cst_canonical regs tb rhs h.2)⟩
-    have hp := h.2
-    cases rhs with
-    | lit l => cases l <;> rfl
-    | stmt _ => exact hp.elim
-    | none => exact hp.elim
-    | _ => rfl
+    have ih := expr_cst_canonical regs tb rhs h.2
+    by_cases hnf : op = notName ∧ isBinary rhs = true
+    · simp only [exprCst, hnf, and_self, if_true]
+      exact canon_notFlip ih
+    · simp only [exprCst, hnf, if_false, Canon]
+      refine ⟨h.1, ?_, canon_pwrap ih⟩
+      cases hn : needParenUnary regs rhs with
+      | true => rfl
+      | false =>
+        simp only [pwrap, Bool.false_eq_true, if_false]
+        have hsh := exprCst_shape regs rhs h.2
+        unfold needParenUnary at hn
+        rw [astBp_root] at hn
+        cases hr : astRoot rhs with
+        | some o => simp [hr] at hn
+        | none =>
+          simp only [hr, Option.map_none] at hn
+          exact primary_of_shape (by rw [hsh.2, hr]) (by rw [hsh.1, hn])
   | .postfix l op, h => by
     simp only [exprCst, Canon]
     refine ⟨h.1, ?_, canon_pwrap (expr_cst_canonical regs tb l h.2)⟩
@@ -157,56 +218,60 @@ theorem expr_cst_canonical (regs : Regs) (tb : TableOK regs) : ∀ t : AST, Prod
       | true => rfl
       | false =>
         simp only [pwrap, Bool.false_eq_true, if_false]; rw [(exprCst_shape regs l hl).1]
-        cases l <;> first | rfl | (simp [needParenLeft, astBp, isTernary] at hn)
+        unfold needParenLeft at hn
+        rw [astBp_root] at hn
+        cases hr : astRoot l with
+        | some o => exact astRoot_not_tern hr
+        | none => simpa [hr] using hn
     · cases hn : needParenRight regs op r with
       | true => rfl
       | false =>
         simp only [pwrap, Bool.false_eq_true, if_false]; rw [(exprCst_shape regs r hr).1]
-        cases r <;> first | rfl | (simp [needParenRight, astBp, isTernary] at hn)
+        unfold needParenRight at hn
+        rw [astBp_root] at hn
+        cases hrr : astRoot r with
+        | some o => exact astRoot_not_tern hrr
+        | none => simpa [hrr] using hn
     · -- an unparenthesised infix left operand binds at least as tight (on its right side)
-      intro o' ho'
+      intro o2 ho'
       cases hn : needParenLeft regs op l with
       | true => simp [pwrap, hn, root?] at ho'
       | false =>
         simp only [pwrap, hn, Bool.false_eq_true, if_false] at ho'
         rw [(exprCst_shape regs l hl).2] at ho'
-        cases l with
-        | binary o2 l2 r2 =>
-          simp only [Option.some.injEq] at ho'; subst ho'
-          have hinf2 : regs.isInfix o2 = true := hl.1
-          have b2 := bp_facts tb hinf2
-          have s2 := bp_snd hinf2
-          simp only [needParenLeft, astBp, decide_eq_false_iff_not] at hn
-          unfold okLeft
-          rcases Int.lt_trichotomy (Regs.prec regs op) (Regs.prec regs o2) with hlt | heq | hgt
-          · exact Or.inl hlt
-          · refine Or.inr ⟨heq.symm, ?_⟩
-            cases hr2 : Regs.isRight regs o2 with
-            | false => rw [tb.assoc op o2 hinf hinf2 heq]; exact hr2
-            | true => rw [hr2] at s2; simp only [if_true] at s2; omega
-          · cases hr2 : Regs.isRight regs o2 <;> rw [hr2] at s2 <;> simp only [if_true, Bool.false_eq_true, if_false] at s2 <;> omega
-        | _ => simp at ho'
-    · intro o' ho'
+        have hinf2 : regs.isInfix o2 = true := astRoot_infix hl ho'
+        have b2 := bp_facts tb hinf2
+        have s2 := bp_snd hinf2
+        unfold needParenLeft at hn
+        rw [astBp_root, ho'] at hn
+        simp only [Option.map_some, decide_eq_false_iff_not] at hn
+        unfold okLeft
+        rcases Int.lt_trichotomy (Regs.prec regs op) (Regs.prec regs o2) with hlt | heq | hgt
+        · exact Or.inl hlt
+        · refine Or.inr ⟨heq.symm, ?_⟩
+          cases hr2 : Regs.isRight regs o2 with
+          | false => rw [tb.assoc op o2 hinf hinf2 heq]; exact hr2
+          | true => rw [hr2] at s2; simp only [if_true] at s2; omega
+        · cases hr2 : Regs.isRight regs o2 <;> rw [hr2] at s2 <;> simp only [if_true, Bool.false_eq_true, if_false] at s2 <;> omega
+    · intro o2 ho'
       cases hn : needParenRight regs op r with
       | true => simp [pwrap, hn, root?] at ho'
       | false =>
         simp only [pwrap, hn, Bool.false_eq_true, if_false] at ho'
         rw [(exprCst_shape regs r hr).2] at ho'
-        cases r with
-        | binary o2 l2 r2 =>
-          simp only [Option.some.injEq] at ho'; subst ho'
-          have hinf2 : regs.isInfix o2 = true := hr.1
-          have b2 := bp_facts tb hinf2
-          simp only [needParenRight, astBp, decide_eq_false_iff_not] at hn
-          unfold okRight
-          rcases Int.lt_trichotomy (Regs.prec regs op) (Regs.prec regs o2) with hlt | heq | hgt
-          · exact Or.inl hlt
-          · refine Or.inr ⟨heq.symm, ?_⟩
-            cases hr1 : Regs.isRight regs op with
-            | true => rfl
-            | false => rw [hr1] at so; simp only [Bool.false_eq_true, if_false] at so; omega
-          · cases hr1 : Regs.isRight regs op <;> rw [hr1] at so <;> simp only [if_true, Bool.false_eq_true, if_false] at so <;> omega
-        | _ => simp at ho'
+        have hinf2 : regs.isInfix o2 = true := astRoot_infix hr ho'
+        have b2 := bp_facts tb hinf2
+        unfold needParenRight at hn
+        rw [astBp_root, ho'] at hn
+        simp only [Option.map_some, decide_eq_false_iff_not] at hn
+        unfold okRight
+        rcases Int.lt_trichotomy (Regs.prec regs op) (Regs.prec regs o2) with hlt | heq | hgt
+        · exact Or.inl hlt
+        · refine Or.inr ⟨heq.symm, ?_⟩
+          cases hr1 : Regs.isRight regs op with
+          | true => rfl
+          | false => rw [hr1] at so; simp only [Bool.false_eq_true, if_false] at so; omega
+        · cases hr1 : Regs.isRight regs op <;> rw [hr1] at so <;> simp only [if_true, Bool.false_eq_true, if_false] at so <;> omega
 theorem expr_cst_canonicalList (regs : Regs) (tb : TableOK regs) : ∀ ts : List AST, ProducibleList regs ts → CanonList regs (exprCstList regs ts)
   | [], _ => trivial
   | a :: as, h => ⟨expr_cst_canonical regs tb a h.1, expr_cst_canonicalList regs tb as h.2⟩
@@ -270,7 +335,17 @@ theorem expr_text (regs : Regs) : ∀ t : AST, Producible regs t → expr regs t
   | .call n args, h => by simp only [expr, exprCst, cstText, expr_textList regs args h]
   | .list xs, h => by simp only [expr, exprCst, cstText, expr_textList regs xs h]; simp
   | .map kvs, h => by simp only [expr, exprCst, cstText, expr_textMap regs kvs h]; simp
-  | .unary op rhs, h => by simp only [expr, exprCst, cstText, cstText_pwrap, expr_text regs rhs h.2]
+  | .unary op rhs, h => by
+    have ih := expr_text regs rhs h.2
+    by_cases hnf : op = notName ∧ isBinary rhs = true
+    · obtain ⟨rfl, hb⟩ := hnf
+      cases rhs <;> simp [isBinary] at hb
+      rename_i o l r
+      have ihl := expr_text regs l h.2.2.1
+      have ihr := expr_text regs r h.2.2.2
+      simp only [expr, exprNot, exprCst, isBinary, and_self, if_true, notFlip, cstText, cstText_pwrap, ihl, ihr]
+      simp
+    · simp only [expr, exprCst, hnf, if_false, cstText, cstText_pwrap, ih]
   | .postfix l op, h => by simp only [expr, exprCst, cstText, cstText_pwrap, expr_text regs l h.2]
   | .binary op l r, h => by
     simp only [expr, exprCst, cstText, cstText_pwrap, expr_text regs l h.2.1, expr_text regs r h.2.2]
@@ -374,5 +449,851 @@ theorem stmt_chain_reparses (regs : Regs) (tb : TableOK regs) (lim : Nat) (hl : 
   have := program_as_written regs tb lim hl (es.map (exprCst regs)) h1 (by rw [h2]; exact hh)
   rw [h2] at this
   exact this
+
+
+/-! ## the printed characters tokenize back to the expression's tokens
+
+`relex`: for a well-formed expression (`WFT`: numbers within the decimal range, strings without both
+quote characters, names that are names and not operator words, symbolic postfix operators) printed
+by `cstText`, the tokenizer returns exactly `flatten`. With `expr_text` and `expr_reparses` this is
+the round trip on the *text* `expr()` returns (`expr_text_reparses`). -/
+
+def SepCh (y : Char) : Bool := y == ' ' || y == ')' || y == ']' || y == '}' || y == ',' || y == ':' || y == ';'
+
+theorem sepCh_cases {y : Char} (h : SepCh y = true) : y = ' ' ∨ y = ')' ∨ y = ']' ∨ y = '}' ∨ y = ',' ∨ y = ':' ∨ y = ';' := by
+  simp [SepCh] at h
+  rcases h with (((((h | h) | h) | h) | h) | h) | h <;> simp [h]
+
+theorem sepCh_facts {y : Char} (h : SepCh y = true) : isParamCh y = false ∧ isDigitRunCh y = false ∧ y ≠ '(' := by
+  rcases sepCh_cases h with rfl | rfl | rfl | rfl | rfl | rfl | rfl <;> exact ⟨by decide, by decide, by decide⟩
+
+/-- what may follow a printed expression: nothing, or a separator character; and the next
+non-blank character is not `(` -/
+def SepOK (rest : Text) : Prop := (∀ y r, rest = y :: r → SepCh y = true) ∧ nextIsOpenParen rest = false
+
+/-- Assumptions on the registered operator names for re-lexing (beyond `LexEnv`); all hold of the
+built-in set (`builtin_regsText`). -/
+structure RegsText (regs : Regs) : Prop where
+  /-- symbolic operators are prefix-closed (the tokenizer extends one character at a time; cf. KF-C10-gap) -/
+  symChain : ∀ c kt, regs.isOp (c :: kt) = true → isSpecialStart c = true → OpChain regs.isOp [c] kt
+  /-- no symbolic operator continues with a separator character -/
+  symStop : ∀ c kt y, regs.isOp (c :: kt) = true → isSpecialStart c = true → SepCh y = true → regs.isOp (c :: kt ++ [y]) = false
+  /-- word operators start with a character that reaches the identifier scanner -/
+  wordStart : ∀ c kt, regs.isOp (c :: kt) = true → isSpecialStart c = false → isOtherStart c = true
+  nonempty : regs.isOp [] = false
+  /-- nothing extends `:` (a map value follows its `:` without a blank) -/
+  colonStop : ∀ y, regs.isOp [':', y] = false
+  postfixSymbolic : ∀ o, regs.isPostfix o = true → ∃ c kt, o = c :: kt ∧ isSpecialStart c = true
+
+def NameShape (regs : Regs) (n : Name) : Prop :=
+  ∃ c kt, n = c :: kt ∧ isOtherStart c = true ∧ (∀ x ∈ kt, isParamCh x = true) ∧ regs.isOp n = false ∧ isBoolWord n = false
+
+def Symbolic (o : Name) : Prop := ∃ c kt, o = c :: kt ∧ isSpecialStart c = true
+
+mutual
+def WFT (regs : Regs) : CST → Prop
+  | .atom (.num d) => d.neg = false ∧ d.WF
+  | .atom (.bool _) => True
+  | .atom (.str s) => ¬ ('"' ∈ s ∧ '\'' ∈ s)
+  | .atom (.ref n) => NameShape regs n
+  | .paren c => WFT regs c
+  | .unary o c => regs.isOp o = true ∧ WFT regs c
+  | .postfix c o => regs.isOp o = true ∧ Symbolic o ∧ WFT regs c
+  | .call n args => NameShape regs n ∧ WFTList regs args
+  | .list xs _ => WFTList regs xs
+  | .map kvs _ => WFTMap regs kvs
+  | .bin nt o l r => (nt = true → regs.isOp notName = true) ∧ regs.isOp o = true ∧ WFT regs l ∧ WFT regs r
+  | .tern c a b => WFT regs c ∧ WFT regs a ∧ WFT regs b
+def WFTList (regs : Regs) : CList → Prop
+  | .nil => True
+  | .cons c r => WFT regs c ∧ WFTList regs r
+def WFTMap (regs : Regs) : CMap → Prop
+  | .nil => True
+  | .cons k v r => WFT regs k ∧ WFT regs v ∧ WFTMap regs r
+end
+
+section Relex
+variable {regs : Regs} (env : LexEnv regs) (rt : RegsText regs)
+include env rt
+
+omit env rt in
+theorem special_not_ws {c : Char} (h : isSpecialStart c = true) : isWs c = false := by
+  rcases special_cases h with rfl | rfl | rfl | rfl | rfl | rfl | rfl | rfl | rfl | rfl | rfl | rfl | rfl | rfl <;> decide
+
+omit env rt in
+theorem sepOK_space (r : Text) (h : nextIsOpenParen r = false) : SepOK (' ' :: r) := by
+  refine ⟨fun y r' e => by simp only [List.cons.injEq] at e; rw [← e.1]; decide, ?_⟩
+  unfold nextIsOpenParen at h ⊢
+  simpa [span, isWs] using h
+
+/-- an operator followed by a blank -/
+theorem emit_op_space {o : Name} (ho : regs.isOp o = true) {r : Text} {toks : List Tok} (h : Pieces regs (' ' :: r) toks) :
+    Pieces regs (o ++ ' ' :: r) (.op o :: toks) := by
+  cases o with
+  | nil => rw [rt.nonempty] at ho; cases ho
+  | cons c kt =>
+    cases hsp : isSpecialStart c with
+    | true =>
+      obtain ⟨t, hl, ht⟩ := lex_symop regs c kt (' ' :: r) 0 hsp (rt.symChain c kt ho hsp) (by
+        intro y r' e
+        simp only [List.cons.injEq] at e
+        cases hop : regs.isOp (c :: kt ++ [y]) with
+        | false => rfl
+        | true => have := env.opsNoWs _ hop y (by simp); rw [← e.1] at this; exact absurd this (by decide))
+      have := Pieces.tok0 (special_not_ws hsp) hl h
+      rw [ht] at this
+      simpa using this
+    | false =>
+      have hos := rt.wordStart c kt ho hsp
+      have hkt : ∀ x ∈ kt, notWsDelim x = true := fun x hx => param_notWsDelim (env.wordOpsPlain c kt ho hsp x hx)
+      obtain ⟨t, hl, ht⟩ := lex_wordop regs c kt (' ' :: r) 0 hos hkt ho (by
+        intro y r' e; simp only [List.cons.injEq] at e; rw [← e.1]; decide)
+      have := Pieces.tok0 (otherStart_facts hos).2.2.2.2.2.2 hl h
+      rw [ht] at this
+      simpa using this
+
+/-- a symbolic operator followed by a separator (or the end) -/
+theorem emit_symop {o : Name} (ho : regs.isOp o = true) (hs : Symbolic o) {rest : Text} {toks : List Tok} (h : Pieces regs rest toks)
+    (hsep : ∀ y r, rest = y :: r → SepCh y = true) : Pieces regs (o ++ rest) (.op o :: toks) := by
+  obtain ⟨c, kt, rfl, hsp⟩ := hs
+  obtain ⟨t, hl, ht⟩ := lex_symop regs c kt rest 0 hsp (rt.symChain c kt ho hsp) (fun y r e => rt.symStop c kt y ho hsp (hsep y r e))
+  have := Pieces.tok0 (special_not_ws hsp) hl h
+  rw [ht] at this
+  simpa using this
+
+omit rt in
+/-- a name followed by a separator: a reference -/
+theorem emit_ref {n : Name} (hn : NameShape regs n) {rest : Text} {toks : List Tok} (h : Pieces regs rest toks) (hsep : SepOK rest) :
+    Pieces regs (n ++ rest) (.ref n :: toks) := by
+  obtain ⟨c, kt, rfl, hos, hkt, hnop, hnb⟩ := hn
+  obtain ⟨t, hl, ht⟩ := lex_name regs env c kt rest 0 hos hkt (fun y r e => (sepCh_facts (hsep.1 y r e)).1) hnop hnb
+  have := Pieces.tok0 (otherStart_facts hos).2.2.2.2.2.2 hl h
+  rw [ht, hsep.2] at this
+  simpa using this
+
+omit rt in
+/-- a name followed by `(`: a function name -/
+theorem emit_func {n : Name} (hn : NameShape regs n) {r : Text} {toks : List Tok} (h : Pieces regs ('(' :: r) toks) :
+    Pieces regs (n ++ '(' :: r) (.func n :: toks) := by
+  obtain ⟨c, kt, rfl, hos, hkt, hnop, hnb⟩ := hn
+  obtain ⟨t, hl, ht⟩ := lex_name regs env c kt ('(' :: r) 0 hos hkt (by
+    intro y r' e; simp only [List.cons.injEq] at e; rw [← e.1]; decide) hnop hnb
+  have := Pieces.tok0 (otherStart_facts hos).2.2.2.2.2.2 hl h
+  have hno : nextIsOpenParen ('(' :: r) = true := by simp [nextIsOpenParen, span, isWs]
+  rw [ht, hno] at this
+  simpa using this
+
+omit env rt in
+theorem emit_delim (d : Delim) {rest : Text} {toks : List Tok} (h : Pieces regs rest toks) :
+    Pieces regs (d.toChar :: rest) (.delim d :: toks) := by
+  have := Pieces.tok0 (kt := []) (by cases d <;> decide) (lex_delim regs d rest 0) h
+  simpa using this
+
+omit env rt in
+theorem emit_comma {rest : Text} {toks : List Tok} (h : Pieces regs rest toks) : Pieces regs (',' :: rest) (.comma :: toks) := by
+  have := Pieces.tok0 (kt := []) (by decide) (lex_comma regs rest 0) h
+  simpa using this
+
+
+omit env in
+theorem op_head {o : Name} (ho : regs.isOp o = true) (r : Text) : nextIsOpenParen (o ++ r) = false := by
+  cases o with
+  | nil => rw [rt.nonempty] at ho; cases ho
+  | cons c kt =>
+    have hc : isWs c = false ∧ c ≠ '(' := by
+      cases hsp : isSpecialStart c with
+      | true => exact ⟨special_not_ws hsp, (by rcases special_cases hsp with rfl | rfl | rfl | rfl | rfl | rfl | rfl | rfl | rfl | rfl | rfl | rfl | rfl | rfl <;> decide)⟩
+      | false =>
+        obtain ⟨_, h2, _, _, _, _, h7⟩ := otherStart_facts (rt.wordStart c kt ho hsp)
+        exact ⟨h7, by intro e; subst e; cases h2⟩
+    have := nextIsOpenParen_ws_prefix (g := []) (by intro x hx; cases hx) hc.1 (kt ++ r)
+    simp only [List.nil_append] at this
+    rw [List.cons_append, this]
+    simpa using hc.2
+
+omit env rt in
+theorem sepOK_char {y : Char} (hy : SepCh y = true) (hws : isWs y = false) (r : Text) : SepOK (y :: r) := by
+  refine ⟨fun y' r' e => by simp only [List.cons.injEq] at e; rw [← e.1]; exact hy, ?_⟩
+  have := nextIsOpenParen_ws_prefix (g := []) (by intro x hx; cases hx) hws r
+  simp only [List.nil_append] at this
+  rw [this]
+  simpa using (sepCh_facts hy).2.2
+
+omit env rt in
+theorem sepOK_nil : SepOK [] := ⟨fun y r e => (by cases e), rfl⟩
+
+omit env in
+/-- `:` directly followed by a map value -/
+theorem emit_colon_tight {r : Text} {toks : List Tok} (h : Pieces regs r toks) : Pieces regs (':' :: r) (tColon :: toks) := by
+  obtain ⟨t, hl, ht⟩ := lex_symop regs ':' [] r 0 (by decide) trivial (fun y r' _ => rt.colonStop y)
+  have := Pieces.tok0 (by decide) hl h
+  rw [ht] at this
+  simpa [tColon, colonName] using this
+
+omit env rt in
+theorem isOp_q (regs : Regs) : regs.isOp ['?'] = true := by simp [Regs.isOp, Regs.isTernaryOp]
+omit env rt in
+theorem isOp_colon (regs : Regs) : regs.isOp [':'] = true := by simp [Regs.isOp, Regs.isTernaryOp]
+
+mutual
+theorem relex : ∀ (c : CST), WFT regs c → ∀ (rest : Text) (toks : List Tok), Pieces regs rest toks → SepOK rest →
+    Pieces regs (cstText c ++ rest) (c.flatten ++ toks)
+  | .atom (.num d), hw, rest, toks, h, hs => by
+    obtain ⟨t, c, kt, htxt, hws, hl, ht⟩ := lex_num regs d hw.1 hw.2 rest 0 (fun y r e => (sepCh_facts (hs.1 y r e)).2.1)
+    have := Pieces.tok0 hws hl h
+    rw [ht] at this
+    simpa [cstText, htxt, CST.flatten, Atom.tok] using this
+  | .atom (.bool true), _, rest, toks, h, hs => by
+    obtain ⟨t, hl, ht⟩ := lex_true regs env rest 0 (fun y r e => (sepCh_facts (hs.1 y r e)).1)
+    have := Pieces.tok0 (by decide) hl h
+    rw [ht] at this
+    simpa [cstText, litText, CST.flatten, Atom.tok] using this
+  | .atom (.bool false), _, rest, toks, h, hs => by
+    obtain ⟨t, hl, ht⟩ := lex_false regs env rest 0 (fun y r e => (sepCh_facts (hs.1 y r e)).1)
+    have := Pieces.tok0 (by decide) hl h
+    rw [ht] at this
+    simpa [cstText, litText, CST.flatten, Atom.tok] using this
+  | .atom (.str s), hw, rest, toks, h, _ => by
+    simp only [cstText, litText, CST.flatten, Atom.tok, List.cons_append, List.nil_append]
+    by_cases hq : '"' ∈ s
+    · have hnot : '\'' ∉ s := fun hm => hw ⟨hq, hm⟩
+      obtain ⟨t, hl, ht⟩ := lex_str regs '\'' (by decide) s rest 0 hnot
+      have := Pieces.tok0 (by decide) hl h
+      rw [ht] at this
+      simpa [hq, List.append_assoc] using this
+    · have hnot : '"' ∉ s := hq
+      obtain ⟨t, hl, ht⟩ := lex_str regs '"' (by decide) s rest 0 hnot
+      have := Pieces.tok0 (by decide) hl h
+      rw [ht] at this
+      simpa [hq, List.append_assoc] using this
+  | .atom (.ref n), hw, rest, toks, h, hs => by
+    simpa [cstText, CST.flatten, Atom.tok] using emit_ref env hw h hs
+  | .paren c, hw, rest, toks, h, _ => by
+    have hin := relex c hw (')' :: rest) (.delim .closeParen :: toks) (emit_delim .closeParen h) (sepOK_char (by decide) (by decide) rest)
+    have := emit_delim .openParen hin
+    simpa [cstText, paren, CST.flatten, tOpen, tClose, Delim.toChar, List.append_assoc] using this
+  | .unary o c, hw, rest, toks, h, hs => by
+    have := emit_op_space env rt hw.1 (relex c hw.2 rest toks h hs).blank
+    simpa [cstText, CST.flatten, List.append_assoc] using this
+  | .postfix c o, hw, rest, toks, h, hs => by
+    obtain ⟨ho, hsym, hwc⟩ := hw
+    have h1 := (emit_symop env rt ho hsym h hs.1).blank
+    have := relex c hwc (' ' :: (o ++ rest)) _ h1 (sepOK_space _ (op_head rt ho rest))
+    simpa [cstText, CST.flatten, List.append_assoc] using this
+  | .call n args, hw, rest, toks, h, _ => by
+    have hin := relexList args hw.2 (')' :: rest) (.delim .closeParen :: toks) (emit_delim .closeParen h) (sepOK_char (by decide) (by decide) rest)
+    have := emit_func env hw.1 (emit_delim .openParen hin)
+    simpa [cstText, CST.flatten, tOpen, tClose, Delim.toChar, List.append_assoc] using this
+  | .list xs tr, hw, rest, toks, h, _ => by
+    cases tr with
+    | false =>
+      have hin := relexList xs hw (']' :: rest) (.delim .closeBracket :: toks) (emit_delim .closeBracket h) (sepOK_char (by decide) (by decide) rest)
+      have := emit_delim .openBracket hin
+      simpa [cstText, CST.flatten, trailToks, tOpenB, tCloseB, Delim.toChar, List.append_assoc] using this
+    | true =>
+      have hin := relexList xs hw (',' :: ']' :: rest) (.comma :: .delim .closeBracket :: toks) (emit_comma (emit_delim .closeBracket h))
+        (sepOK_char (by decide) (by decide) _)
+      have := emit_delim .openBracket hin
+      simpa [cstText, CST.flatten, trailToks, tOpenB, tCloseB, Delim.toChar, List.append_assoc] using this
+  | .map kvs tr, hw, rest, toks, h, _ => by
+    cases tr with
+    | false =>
+      have hin := relexMap kvs hw ('}' :: rest) (.delim .closeBrace :: toks) (emit_delim .closeBrace h) (sepOK_char (by decide) (by decide) rest)
+      have := emit_delim .openBrace hin
+      simpa [cstText, CST.flatten, trailToks, tOpenC, tCloseC, Delim.toChar, List.append_assoc] using this
+    | true =>
+      have hin := relexMap kvs hw (',' :: '}' :: rest) (.comma :: .delim .closeBrace :: toks) (emit_comma (emit_delim .closeBrace h))
+        (sepOK_char (by decide) (by decide) _)
+      have := emit_delim .openBrace hin
+      simpa [cstText, CST.flatten, trailToks, tOpenC, tCloseC, Delim.toChar, List.append_assoc] using this
+  | .bin nt o l r, hw, rest, toks, h, hs => by
+    obtain ⟨hnt, ho, hwl, hwr⟩ := hw
+    have h1 := (emit_op_space env rt ho (relex r hwr rest toks h hs).blank).blank
+    cases nt with
+    | false =>
+      have := relex l hwl (' ' :: (o ++ ' ' :: (cstText r ++ rest))) _ h1 (sepOK_space _ (op_head rt ho _))
+      simpa [cstText, CST.flatten, opToks, List.append_assoc] using this
+    | true =>
+      have hno := hnt rfl
+      have h2 := (emit_op_space env rt hno h1).blank
+      have := relex l hwl (' ' :: (notName ++ ' ' :: (o ++ ' ' :: (cstText r ++ rest)))) _ h2 (sepOK_space _ (op_head rt hno _))
+      simpa [cstText, CST.flatten, opToks, tNot, notName, List.append_assoc] using this
+  | .tern c a b, hw, rest, toks, h, hs => by
+    obtain ⟨hwc, hwa, hwb⟩ := hw
+    have hb := (emit_op_space env rt (isOp_colon regs) (relex b hwb rest toks h hs).blank).blank
+    have ha := relex a hwa (' ' :: ([':'] ++ ' ' :: (cstText b ++ rest))) _ hb (sepOK_space _ (op_head rt (isOp_colon regs) _))
+    have hq := (emit_op_space env rt (isOp_q regs) ha.blank).blank
+    have := relex c hwc (' ' :: (['?'] ++ ' ' :: (cstText a ++ (' ' :: ([':'] ++ ' ' :: (cstText b ++ rest)))))) _ hq
+      (sepOK_space _ (op_head rt (isOp_q regs) _))
+    simpa [cstText, CST.flatten, tQ, tColon, qName, colonName, List.append_assoc] using this
+theorem relexList : ∀ (xs : CList), WFTList regs xs → ∀ (rest : Text) (toks : List Tok), Pieces regs rest toks → SepOK rest →
+    Pieces regs (joinWith [','] (cstTextList xs) ++ rest) (xs.flatten ++ toks)
+  | .nil, _, rest, toks, h, _ => by simpa [cstTextList, joinWith, CList.flatten] using h
+  | .cons c .nil, hw, rest, toks, h, hs => by
+    simpa [cstTextList, joinWith, CList.flatten] using relex c hw.1 rest toks h hs
+  | .cons c (.cons c2 r2), hw, rest, toks, h, hs => by
+    have hr := relexList (.cons c2 r2) hw.2 rest toks h hs
+    have := relex c hw.1 (',' :: (joinWith [','] (cstTextList (.cons c2 r2)) ++ rest)) _ (emit_comma hr) (sepOK_char (by decide) (by decide) _)
+    simpa [cstTextList, joinWith, CList.flatten, List.append_assoc] using this
+theorem relexMap : ∀ (kvs : CMap), WFTMap regs kvs → ∀ (rest : Text) (toks : List Tok), Pieces regs rest toks → SepOK rest →
+    Pieces regs (joinWith [','] (cstTextMap kvs) ++ rest) (kvs.flatten ++ toks)
+  | .nil, _, rest, toks, h, _ => by simpa [cstTextMap, joinWith, CMap.flatten] using h
+  | .cons k v .nil, hw, rest, toks, h, hs => by
+    have hv := relex v hw.2.1 rest toks h hs
+    have := relex k hw.1 (':' :: (cstText v ++ rest)) _ (emit_colon_tight rt hv) (sepOK_char (by decide) (by decide) _)
+    simpa [cstTextMap, joinWith, CMap.flatten, List.append_assoc] using this
+  | .cons k v (.cons k2 v2 r2), hw, rest, toks, h, hs => by
+    have hr := relexMap (.cons k2 v2 r2) hw.2.2 rest toks h hs
+    have hv := relex v hw.2.1 (',' :: (joinWith [','] (cstTextMap (.cons k2 v2 r2)) ++ rest)) _ (emit_comma hr) (sepOK_char (by decide) (by decide) _)
+    have := relex k hw.1 (':' :: (cstText v ++ (',' :: (joinWith [','] (cstTextMap (.cons k2 v2 r2)) ++ rest)))) _ (emit_colon_tight rt hv)
+      (sepOK_char (by decide) (by decide) _)
+    simpa [cstTextMap, joinWith, CMap.flatten, List.append_assoc] using this
+end
+
+end Relex
+
+
+/-- **The printed characters tokenize back to the expression's tokens.** -/
+theorem relex_tokenize (regs : Regs) (env : LexEnv regs) (rt : RegsText regs) (c : CST) (hw : WFT regs c) :
+    ∃ sts, tokenize regs (cstText c) = .ok sts ∧ sts.map (·.tok) = c.flatten := by
+  have := relex env rt c hw [] [] (Pieces.done (by intro x hx; cases hx)) sepOK_nil
+  simp only [List.append_nil] at this
+  exact pieces_tokenize regs this
+
+/-! ### from the tree: what the leaves must look like -/
+
+mutual
+/-- the leaves of a tree as the tokenizer produces them: non-negative numbers within the decimal
+range, strings without both quote characters, names of identifier shape that are neither operator
+words nor boolean keywords -/
+def LeafOK (regs : Regs) : AST → Prop
+  | .lit (.num d) => d.neg = false ∧ d.WF
+  | .lit (.bool _) => True
+  | .lit (.str s) => ¬ ('"' ∈ s ∧ '\'' ∈ s)
+  | .ref n => NameShape regs n
+  | .call n args => NameShape regs n ∧ LeafOKList regs args
+  | .unary _ rhs => LeafOK regs rhs
+  | .binary _ l r => LeafOK regs l ∧ LeafOK regs r
+  | .postfix l _ => LeafOK regs l
+  | .ternary c a b => LeafOK regs c ∧ LeafOK regs a ∧ LeafOK regs b
+  | .list xs => LeafOKList regs xs
+  | .map kvs => LeafOKMap regs kvs
+  | .stmt _ => False
+  | .none => False
+def LeafOKList (regs : Regs) : List AST → Prop
+  | [] => True
+  | a :: as => LeafOK regs a ∧ LeafOKList regs as
+def LeafOKMap (regs : Regs) : List (AST × AST) → Prop
+  | [] => True
+  | (k, v) :: r => LeafOK regs k ∧ LeafOK regs v ∧ LeafOKMap regs r
+end
+
+theorem wft_pwrap {regs : Regs} {b : Bool} {c : CST} (h : WFT regs c) : WFT regs (pwrap b c) := by
+  cases b <;> simpa [pwrap, WFT] using h
+
+theorem isOp_of_prefix {regs : Regs} {o : Name} (h : regs.isPrefix o = true) : regs.isOp o = true := by simp [Regs.isOp, h]
+theorem isOp_of_infix {regs : Regs} {o : Name} (h : regs.isInfix o = true) : regs.isOp o = true := by simp [Regs.isOp, h]
+theorem isOp_of_postfix {regs : Regs} {o : Name} (h : regs.isPostfix o = true) : regs.isOp o = true := by simp [Regs.isOp, h]
+
+mutual
+theorem wft_exprCst (regs : Regs) (rt : RegsText regs) : ∀ t : AST, Producible regs t → LeafOK regs t → WFT regs (exprCst regs t)
+  | .lit (.num d), _, hl => hl
+  | .lit (.bool b), _, _ => trivial
+  | .lit (.str s), _, hl => hl
+  | .ref n, _, hl => hl
+  | .call n args, hp, hl => ⟨hl.1, wft_exprCstList regs rt args hp hl.2⟩
+  | .unary op rhs, hp, hl => by
+    have ih := wft_exprCst regs rt rhs hp.2 hl
+    by_cases hnf : op = notName ∧ isBinary rhs = true
+    · obtain ⟨rfl, hb⟩ := hnf
+      cases rhs <;> simp [isBinary] at hb
+      simp only [exprCst, isBinary, and_self, if_true, notFlip, WFT] at ih ⊢
+      exact ⟨fun _ => isOp_of_prefix hp.1, ih.2⟩
+    · simp only [exprCst, hnf, if_false, WFT]
+      exact ⟨isOp_of_prefix hp.1, wft_pwrap ih⟩
+  | .binary op l r, hp, hl => ⟨fun e => (by cases e), isOp_of_infix hp.1, wft_pwrap (wft_exprCst regs rt l hp.2.1 hl.1), wft_pwrap (wft_exprCst regs rt r hp.2.2 hl.2)⟩
+  | .postfix l op, hp, hl => ⟨isOp_of_postfix hp.1, rt.postfixSymbolic op hp.1, wft_pwrap (wft_exprCst regs rt l hp.2 hl)⟩
+  | .ternary c a b, hp, hl =>
+    ⟨wft_pwrap (wft_exprCst regs rt c hp.1 hl.1), wft_exprCst regs rt a hp.2.1 hl.2.1, wft_exprCst regs rt b hp.2.2 hl.2.2⟩
+  | .list xs, hp, hl => wft_exprCstList regs rt xs hp hl
+  | .map kvs, hp, hl => wft_exprCstMap regs rt kvs hp hl
+  | .stmt _, hp, _ => hp.elim
+  | .none, hp, _ => hp.elim
+theorem wft_exprCstList (regs : Regs) (rt : RegsText regs) : ∀ ts : List AST, ProducibleList regs ts → LeafOKList regs ts →
+    WFTList regs (exprCstList regs ts)
+  | [], _, _ => trivial
+  | a :: as, hp, hl => ⟨wft_exprCst regs rt a hp.1 hl.1, wft_exprCstList regs rt as hp.2 hl.2⟩
+theorem wft_exprCstMap (regs : Regs) (rt : RegsText regs) : ∀ ts : List (AST × AST), ProducibleMap regs ts → LeafOKMap regs ts →
+    WFTMap regs (exprCstMap regs ts)
+  | [], _, _ => trivial
+  | (k, v) :: r, hp, hl => ⟨wft_exprCst regs rt k hp.1 hl.1, wft_exprCst regs rt v hp.2.1 hl.2.1, wft_exprCstMap regs rt r hp.2.2 hl.2.2⟩
+end
+
+/-- **`expr()` output re-parses to the same tree — on the text.** For every producible tree with
+tokenizer-shaped leaves, within the nesting limit: `parse_expression(t.expr()) = Ok(t)`. -/
+theorem expr_text_reparses (regs : Regs) (tb : TableOK regs) (env : LexEnv regs) (rt : RegsText regs) (t : AST)
+    (hp : Producible regs t) (hl : LeafOK regs t) (hf : Fits maxDepth (exprCst regs t)) :
+    parseProgram regs (expr regs t) = .ok t := by
+  obtain ⟨sts, hts, hmap⟩ := relex_tokenize regs env rt (exprCst regs t) (wft_exprCst regs rt t hp hl)
+  rw [expr_text regs t hp]
+  exact parse_groups_as_written regs tb _ sts (exprCst regs t) hts hmap (expr_cst_canonical regs tb t hp) hf
+    |>.trans (by rw [strip_exprCst regs t hp])
+
+/-- … and rendering the re-parsed tree gives the same text (idempotence, on the text). -/
+theorem expr_text_idempotent (regs : Regs) (tb : TableOK regs) (env : LexEnv regs) (rt : RegsText regs) (t t' : AST)
+    (hp : Producible regs t) (hl : LeafOK regs t) (hf : Fits maxDepth (exprCst regs t))
+    (h : parseProgram regs (expr regs t) = .ok t') : expr regs t' = expr regs t := by
+  rw [expr_text_reparses regs tb env rt t hp hl hf] at h
+  injection h with h
+  rw [h]
+
+/-- The built-in operator names satisfy the re-lexing assumptions. -/
+theorem builtin_regsText : RegsText Regs.builtin where
+  symChain := by
+    intro c kt h hs
+    rw [EE.Props.C10.builtin_isOp_iff] at h
+    have hall : ∀ m ∈ EE.Tie.allOps, (match m with
+        | c :: kt => !isSpecialStart c || ((List.range kt.length).all fun i => Regs.builtin.isOp (c :: kt.take (i + 1)))
+        | [] => true) = true := by decide
+    have := hall _ h
+    simp only [hs, Bool.not_true, Bool.false_or, List.all_eq_true, List.mem_range] at this
+    -- turn "every proper prefix is an operator" into the chain
+    have gen : ∀ (kt cur : Text), (∀ i, i < kt.length → Regs.builtin.isOp (cur ++ kt.take (i + 1)) = true) → OpChain Regs.builtin.isOp cur kt := by
+      intro kt
+      induction kt with
+      | nil => intro _ _; trivial
+      | cons x kt ih =>
+        intro cur hk
+        refine ⟨by simpa using hk 0 (by simp), ih (cur ++ [x]) fun i hi => ?_⟩
+        have := hk (i + 1) (by simp; omega)
+        simpa [List.append_assoc] using this
+    exact gen kt [c] (fun i hi => by simpa using this i hi)
+  symStop := by
+    intro c kt y h hs hy
+    rw [EE.Props.C10.builtin_isOp_iff] at h
+    cases hop : Regs.builtin.isOp (c :: kt ++ [y]) with
+    | false => rfl
+    | true =>
+      rw [EE.Props.C10.builtin_isOp_iff] at hop
+      have hall : ∀ m ∈ EE.Tie.allOps, ∀ z ∈ m, SepCh z = false ∨ m = [':'] := by decide
+      rcases hall _ hop y (by simp) with h1 | h1
+      · rw [hy] at h1; cases h1
+      · have := congrArg List.length h1
+        simp at this
+  wordStart := by
+    intro c kt h hs
+    rw [EE.Props.C10.builtin_isOp_iff] at h
+    have hall : ∀ m ∈ EE.Tie.allOps, (match m with | c :: _ => isSpecialStart c || isOtherStart c | [] => true) = true := by decide
+    have := hall _ h
+    simpa [hs] using this
+  nonempty := by decide
+  colonStop := by
+    intro y
+    cases hop : Regs.builtin.isOp [':', y] with
+    | false => rfl
+    | true =>
+      rw [EE.Props.C10.builtin_isOp_iff] at hop
+      have hall : ∀ m ∈ EE.Tie.allOps, (match m with | ':' :: _ :: _ => false | _ => true) = true := by decide
+      have := hall _ hop
+      simp at this
+  postfixSymbolic := by
+    intro o h
+    have hmem : o ∈ Gen.postfixNames := by
+      unfold Regs.isPostfix Regs.builtin at h
+      simp only at h
+      have : ∀ (l : List Name), (alookup o (l.map fun n => (n, HandlerId.builtinPostfix n))).isSome = true → o ∈ l := by
+        intro l
+        induction l with
+        | nil => intro h; simp at h
+        | cons x xs ih =>
+          intro h
+          simp only [List.map_cons, alookup_cons] at h
+          by_cases e : x = o
+          · simp [e]
+          · simp only [e, if_false] at h; simp [ih h]
+      exact this _ h
+    have hall : ∀ m ∈ Gen.postfixNames, (match m with | c :: _ => isSpecialStart c | [] => false) = true := by decide
+    have := hall _ hmem
+    cases o with
+    | nil => simp at this
+    | cons c kt => exact ⟨c, kt, rfl, this⟩
+
+/-- The round trip on the text, for the engine as shipped. -/
+theorem expr_text_reparses_builtin (t : AST) (hp : Producible Regs.builtin t) (hl : LeafOK Regs.builtin t)
+    (hf : Fits maxDepth (exprCst Regs.builtin t)) : parseProgram Regs.builtin (expr Regs.builtin t) = .ok t :=
+  expr_text_reparses _ builtin_table_ok EE.Props.C11.builtin_lexEnv builtin_regsText t hp hl hf
+
+
+/-! ## `expr()` never nests deeper than the source
+
+`exprCst` writes the fewest parentheses the table allows, so whatever canonical expression `c` a
+tree was parsed from, the rendering nests no deeper than `c`. Hence the rendering of every
+*accepted* expression is itself within the nesting limit (`expr_fits_of_source`) — the `Fits`
+hypothesis of `expr_text_reparses` is discharged for everything the parser returns. (Before the
+repairs recorded as `fixed: property=C12 e60cef1 / 188bb2b` this was false: `(a ++) ++` and
+`not (x OP y)` nested deeper than the `a ++ ++` and `x not OP y` they were parsed from.) -/
+
+mutual
+theorem canon_producible {regs : Regs} (hnot : regs.isPrefix notName = true) : ∀ c : CST, Canon regs c → Producible regs c.strip
+  | .atom (.num _), _ => trivial
+  | .atom (.bool _), _ => trivial
+  | .atom (.str _), _ => trivial
+  | .atom (.ref _), _ => trivial
+  | .paren c, h => canon_producible hnot c h
+  | .unary _ c, h => ⟨h.1, canon_producible hnot c h.2.2⟩
+  | .postfix c _, h => ⟨h.1, canon_producible hnot c h.2.2⟩
+  | .call _ args, h => canon_producibleList hnot args h
+  | .list xs _, h => canon_producibleList hnot xs h.1
+  | .map kvs _, h => canon_producibleMap hnot kvs h.1
+  | .bin nt o l r, h => by
+    have hb : Producible regs (.binary o l.strip r.strip) := ⟨h.1, canon_producible hnot l h.2.1, canon_producible hnot r h.2.2.1⟩
+    cases nt with
+    | false => simpa [CST.strip, wrapNot] using hb
+    | true => simpa [CST.strip, wrapNot, Producible] using ⟨hnot, hb⟩
+  | .tern c a b, h => ⟨canon_producible hnot c h.1, canon_producible hnot a h.2.2.1, canon_producible hnot b h.2.2.2⟩
+theorem canon_producibleList {regs : Regs} (hnot : regs.isPrefix notName = true) : ∀ xs : CList, CanonList regs xs → ProducibleList regs xs.strip
+  | .nil, _ => trivial
+  | .cons c r, h => ⟨canon_producible hnot c h.1, canon_producibleList hnot r h.2⟩
+theorem canon_producibleMap {regs : Regs} (hnot : regs.isPrefix notName = true) : ∀ xs : CMap, CanonMap regs xs → ProducibleMap regs xs.strip
+  | .nil, _ => trivial
+  | .cons k v r, h => ⟨canon_producible hnot k h.1, canon_producible hnot v h.2.1, canon_producibleMap hnot r h.2.2⟩
+end
+
+/-- the rendering of a tree is an operand (not an infix expression, not a conditional) iff the tree has no infix root and is no conditional -/
+theorem exprCst_primary (regs : Regs) (t : AST) (h : Producible regs t) :
+    (exprCst regs t).isPrimary = (match astRoot t with | some _ => false | none => !isTernary t) := by
+  obtain ⟨h1, h2⟩ := exprCst_shape regs t h
+  generalize exprCst regs t = c at h1 h2
+  cases hr : astRoot t with
+  | some o => rw [hr] at h2; cases c <;> simp_all [root?, isPrimary]
+  | none =>
+    rw [hr] at h2
+    cases c <;> simp_all [root?, isPrimary, isTern]
+
+theorem nest_pwrap (b : Bool) (c : CST) : (pwrap b c).nest = c.nest + (if b then 1 else 0) := by
+  cases b <;> simp [pwrap, CST.nest]
+
+theorem nest_notFlip (c : CST) : (notFlip c).nest = c.nest := by
+  cases c <;> simp [notFlip, CST.nest]
+
+theorem isPrimary_notFlip (c : CST) : (notFlip c).isPrimary = c.isPrimary := by
+  cases c <;> simp [notFlip, isPrimary]
+
+/-- the right-operand contribution to `nest` -/
+def rnest (c : CST) : Nat := match c with | .bin _ _ _ _ => c.nest + 1 | _ => c.nest
+
+theorem nest_bin (nt : Bool) (o : Name) (l r : CST) : (CST.bin nt o l r).nest = max l.nest (rnest r) := by
+  cases r <;> simp only [CST.nest, rnest]
+
+theorem rnest_le_of_primary {c : CST} (h : c.isPrimary = true) : rnest c = c.nest := by
+  cases c <;> simp_all [rnest, isPrimary]
+
+theorem rnest_le (c : CST) : rnest c ≤ c.nest + 1 := by
+  cases c <;> simp [rnest]
+
+theorem nest_le_rnest (c : CST) : c.nest ≤ rnest c := by
+  cases c <;> simp [rnest]
+
+theorem rnest_nonprimary_nontern {c : CST} (h : c.isPrimary = false) (ht : c.isTern = false) : rnest c = c.nest + 1 := by
+  cases c <;> simp_all [rnest, isPrimary, isTern]
+
+
+def isParen : CST → Bool
+  | .paren _ => true
+  | _ => false
+
+/-- the rendering of what `c` denotes nests no deeper than `c`; strictly less deep where `c` is an
+operand whose rendering is not (so that `expr()` has room for the parentheses it adds), or a
+parenthesised expression -/
+def MinOK (regs : Regs) (c : CST) : Prop :=
+  (exprCst regs c.strip).nest ≤ c.nest ∧
+  (c.isPrimary = true → ((exprCst regs c.strip).isPrimary = false ∨ isParen c = true) → (exprCst regs c.strip).nest + 1 ≤ c.nest)
+
+theorem primary_of_not_bin_tern {c : CST} (h1 : c.root? = none) (h2 : c.isTern = false) : c.isPrimary = true :=
+  primary_of_shape h1 h2
+
+theorem needParenUnary_eq (regs : Regs) (t : AST) (h : Producible regs t) : needParenUnary regs t = !(exprCst regs t).isPrimary := by
+  rw [exprCst_primary regs t h]
+  unfold needParenUnary
+  rw [astBp_root]
+  cases astRoot t <;> simp
+
+theorem needParenLeft_nonprimary (regs : Regs) (o : Name) (t : AST) (h : Producible regs t) (hb : needParenLeft regs o t = true) :
+    (exprCst regs t).isPrimary = false := by
+  rw [exprCst_primary regs t h]
+  unfold needParenLeft at hb
+  rw [astBp_root] at hb
+  cases hr : astRoot t with
+  | some _ => rfl
+  | none => simpa [hr] using hb
+
+theorem needParenRight_nonprimary (regs : Regs) (o : Name) (t : AST) (h : Producible regs t) (hb : needParenRight regs o t = true) :
+    (exprCst regs t).isPrimary = false := by
+  rw [exprCst_primary regs t h]
+  unfold needParenRight at hb
+  rw [astBp_root] at hb
+  cases hr : astRoot t with
+  | some _ => rfl
+  | none => simpa [hr] using hb
+
+theorem strip_bin_root (nt : Bool) (o : Name) (l r : CST) : astRoot (CST.bin nt o l r).strip = some o := by
+  cases nt <;> simp [CST.strip, wrapNot, astRoot, binRoot]
+
+theorem strip_bin_not_tern (nt : Bool) (o : Name) (l r : CST) : isTernary (CST.bin nt o l r).strip = false := by
+  cases nt <;> simp [CST.strip, wrapNot, isTernary]
+
+/-- the rendering of `bin nt o l r` -/
+theorem exprCst_bin (regs : Regs) (nt : Bool) (o : Name) (l r : CST) :
+    exprCst regs (CST.bin nt o l r).strip =
+      .bin nt o (pwrap (needParenLeft regs o l.strip) (exprCst regs l.strip)) (pwrap (needParenRight regs o r.strip) (exprCst regs r.strip)) := by
+  cases nt <;> simp [CST.strip, wrapNot, exprCst, isBinary, notFlip]
+
+mutual
+theorem minimal {regs : Regs} (tb : TableOK regs) (hnot : regs.isPrefix notName = true) : ∀ c : CST, Canon regs c → MinOK regs c
+  | .atom a, _ => by
+    cases a <;> exact ⟨Nat.le_refl _, fun _ h => by rcases h with h | h <;> simp [CST.strip, Atom.ast, exprCst, isPrimary, isParen] at h⟩
+  | .paren c, h => by
+    have ih := (minimal tb hnot c h).1
+    simp only [MinOK, CST.strip, CST.nest] at ih ⊢
+    exact ⟨by omega, fun _ _ => by omega⟩
+  | .unary o c, h => by
+    obtain ⟨hpre, hprim, hc⟩ := h
+    have ih := minimal tb hnot c hc
+    have hp := canon_producible hnot c hc
+    simp only [MinOK, CST.strip, CST.nest] at ih ⊢
+    by_cases hnf : o = notName ∧ isBinary c.strip = true
+    · have hnp : (exprCst regs c.strip).isPrimary = false := by
+        rw [exprCst_primary regs _ hp]
+        cases hs : c.strip <;> simp [hs, isBinary] at hnf
+        simp [astRoot]
+      have := ih.2 hprim (Or.inl hnp)
+      simp only [exprCst, hnf, and_self, if_true, nest_notFlip]
+      exact ⟨by omega, fun _ _ => by omega⟩
+    · simp only [exprCst, hnf, if_false, CST.nest, nest_pwrap, isPrimary]
+      refine ⟨?_, fun _ h => by rcases h with h | h <;> simp [isParen] at h⟩
+      rw [needParenUnary_eq regs _ hp]
+      cases hpr : (exprCst regs c.strip).isPrimary with
+      | true => simp; exact ih.1
+      | false => simp; exact ih.2 hprim (Or.inl hpr)
+  | .postfix c o, h => by
+    obtain ⟨hpost, hpf, hc⟩ := h
+    have ih := minimal tb hnot c hc
+    simp only [MinOK, CST.strip, CST.nest, exprCst, nest_pwrap, isPrimary] at ih ⊢
+    refine ⟨?_, fun _ h => by rcases h with h | h <;> simp [isParen] at h⟩
+    cases hb : needParenPostfix c.strip with
+    | false => simpa using ih.1
+    | true =>
+      simp only [if_true]
+      cases c with
+      | paren c3 => exact ih.2 rfl (Or.inr rfl)
+      | atom a => cases a <;> simp [CST.strip, Atom.ast, needParenPostfix] at hb
+      | _ => simp [CST.strip, needParenPostfix, postfixable] at hb hpf
+  | .call n args, h => by
+    have ih := minimalList tb hnot args h
+    simp only [MinOK, CST.strip, exprCst, CST.nest, isPrimary]
+    exact ⟨ih, fun _ h => by rcases h with h | h <;> simp [isParen] at h⟩
+  | .list xs _, h => by
+    have ih := minimalList tb hnot xs h.1
+    simp only [MinOK, CST.strip, exprCst, CST.nest, isPrimary]
+    exact ⟨ih, fun _ h => by rcases h with h | h <;> simp [isParen] at h⟩
+  | .map kvs _, h => by
+    have ih := minimalMap tb hnot kvs h.1
+    simp only [MinOK, CST.strip, exprCst, CST.nest, isPrimary]
+    exact ⟨ih, fun _ h => by rcases h with h | h <;> simp [isParen] at h⟩
+  | .tern cc a b, h => by
+    obtain ⟨hcc, hct, hca, hcb⟩ := h
+    have ihc := minimal tb hnot cc hcc
+    have iha := (minimal tb hnot a hca).1
+    have ihb := (minimal tb hnot b hcb).1
+    have hpc := canon_producible hnot cc hcc
+    simp only [MinOK, CST.strip, exprCst, CST.nest, nest_pwrap, isPrimary] at ihc iha ihb ⊢
+    refine ⟨?_, fun h _ => by simp at h⟩
+    have hcond : (exprCst regs cc.strip).nest + (if isTernary cc.strip = true then 1 else 0) ≤ cc.nest := by
+      cases hb : isTernary cc.strip with
+      | false => simpa using ihc.1
+      | true =>
+        simp only [if_true]
+        have hroot : cc.root? = none := by
+          cases cc with
+          | bin nt o l r => rw [strip_bin_not_tern] at hb; cases hb
+          | _ => rfl
+        have hnp : (exprCst regs cc.strip).isPrimary = false := by
+          rw [exprCst_primary regs _ hpc]
+          cases hr : astRoot cc.strip with
+          | some o => exact absurd hb (by rw [astRoot_not_tern hr]; decide)
+          | none => simp [hb]
+        exact ihc.2 (primary_of_shape hroot hct) (Or.inl hnp)
+    omega
+  | .bin nt o l r, h => by
+    obtain ⟨hinf, hl, hr, hlt, hrt, hL, hR⟩ := h
+    have ihl := minimal tb hnot l hl
+    have ihr := minimal tb hnot r hr
+    have hpl := canon_producible hnot l hl
+    have hpr := canon_producible hnot r hr
+    have bo := bp_facts tb hinf
+    have so := bp_snd hinf
+    unfold MinOK at ihl ihr ⊢
+    rw [exprCst_bin, nest_bin, nest_bin]
+    refine ⟨?_, fun h _ => by simp [isPrimary] at h⟩
+    -- left operand
+    have hleft : (pwrap (needParenLeft regs o l.strip) (exprCst regs l.strip)).nest ≤ l.nest := by
+      rw [nest_pwrap]
+      cases hb : needParenLeft regs o l.strip with
+      | false => simpa using ihl.1
+      | true =>
+        simp only [if_true]
+        have hroot : l.root? = none := by
+          cases hlr : l.root? with
+          | none => rfl
+          | some o' =>
+            exfalso
+            have hk := hL o' hlr
+            have hio := root_infix hl hlr
+            have bl := bp_facts tb hio
+            have sl := bp_snd hio
+            cases l with
+            | bin nt' o'' l2 r2 =>
+              simp only [root?, Option.some.injEq] at hlr; subst hlr
+              unfold needParenLeft at hb
+              rw [astBp_root, strip_bin_root] at hb
+              simp only [Option.map_some, decide_eq_true_eq] at hb
+              unfold okLeft at hk
+              rcases hk with h1 | ⟨h1, h2⟩
+              · omega
+              · have := tb.assoc o'' o hio hinf h1
+                rw [h2] at this
+                rw [this] at sl; simp only [Bool.false_eq_true, if_false] at sl
+                omega
+            | _ => simp [root?] at hlr
+        exact ihl.2 (primary_of_shape hroot hlt) (Or.inl (needParenLeft_nonprimary regs o _ hpl hb))
+    -- right operand
+    have hright : rnest (pwrap (needParenRight regs o r.strip) (exprCst regs r.strip)) ≤ rnest r := by
+      cases hb : needParenRight regs o r.strip with
+      | true =>
+        have hroot : r.root? = none := by
+          cases hrr : r.root? with
+          | none => rfl
+          | some o' =>
+            exfalso
+            have hk := hR o' hrr
+            have hio := root_infix hr hrr
+            have br := bp_facts tb hio
+            cases r with
+            | bin nt' o'' l2 r2 =>
+              simp only [root?, Option.some.injEq] at hrr; subst hrr
+              unfold needParenRight at hb
+              rw [astBp_root, strip_bin_root] at hb
+              simp only [Option.map_some, decide_eq_true_eq] at hb
+              unfold okRight at hk
+              rcases hk with h1 | ⟨h1, h2⟩
+              · omega
+              · rw [h2] at so; simp only [if_true] at so; omega
+            | _ => simp [root?] at hrr
+        have hprim := primary_of_shape hroot hrt
+        have := ihr.2 hprim (Or.inl (needParenRight_nonprimary regs o _ hpr hb))
+        have e1 : rnest (CST.paren (exprCst regs r.strip)) = (exprCst regs r.strip).nest + 1 := rfl
+        simp only [pwrap, if_true]
+        rw [e1, rnest_le_of_primary hprim]
+        exact this
+      | false =>
+        simp only [pwrap, Bool.false_eq_true, if_false]
+        cases hpe : (exprCst regs r.strip).isPrimary with
+        | true =>
+          rw [rnest_le_of_primary hpe]
+          exact Nat.le_trans ihr.1 (nest_le_rnest r)
+        | false =>
+          have hnt : (exprCst regs r.strip).isTern = false := by
+            rw [(exprCst_shape regs _ hpr).1]
+            unfold needParenRight at hb
+            rw [astBp_root] at hb
+            cases hrt' : astRoot r.strip with
+            | some o' => exact astRoot_not_tern hrt'
+            | none => simpa [hrt'] using hb
+          rw [rnest_nonprimary_nontern hpe hnt]
+          cases hrr : r.root? with
+          | some o' =>
+            cases r with
+            | bin nt' o'' l2 r2 => simp only [rnest]; have := ihr.1; omega
+            | _ => simp [root?] at hrr
+          | none =>
+            have hprim := primary_of_shape hrr hrt
+            rw [rnest_le_of_primary hprim]
+            exact ihr.2 hprim (Or.inl hpe)
+    omega
+theorem minimalList {regs : Regs} (tb : TableOK regs) (hnot : regs.isPrefix notName = true) : ∀ xs : CList, CanonList regs xs →
+    (exprCstList regs xs.strip).nest ≤ xs.nest
+  | .nil, _ => Nat.le_refl _
+  | .cons c r, h => by
+    have h1 := (minimal tb hnot c h.1).1
+    have h2 := minimalList tb hnot r h.2
+    simp only [CList.strip, exprCstList, CList.nest]
+    omega
+theorem minimalMap {regs : Regs} (tb : TableOK regs) (hnot : regs.isPrefix notName = true) : ∀ xs : CMap, CanonMap regs xs →
+    (exprCstMap regs xs.strip).nest ≤ xs.nest
+  | .nil, _ => Nat.le_refl _
+  | .cons k v r, h => by
+    have h1 := (minimal tb hnot k h.1).1
+    have h2 := (minimal tb hnot v h.2.1).1
+    have h3 := minimalMap tb hnot r h.2.2
+    simp only [CMap.strip, exprCstMap, CMap.nest]
+    omega
+end
+
+
+/-- **The rendering of a canonically written source fits wherever the source fits.** -/
+theorem expr_fits_of_source (regs : Regs) (tb : TableOK regs) (hnot : regs.isPrefix notName = true) (lim : Nat) (c : CST)
+    (hc : Canon regs c) (hf : Fits lim c) : Fits lim (exprCst regs c.strip) := by
+  have hm := (minimal tb hnot c hc).1
+  have hs := strip_exprCst regs c.strip (canon_producible hnot c hc)
+  exact ⟨by have := hf.1; omega, by rw [hs]; exact hf.2⟩
+
+/-- **End to end, on the text**: write any expression canonically (`Canon`, C02) within the nesting
+limit; let `t` be the tree `parse_expression` returns for it (`groups_as_written`); then
+`parse_expression(t.expr())` returns `t` again, and `expr()` of that is the same text — provided the
+leaves are as the tokenizer produces them (`LeafOK`: in particular names that are not operator
+words). No `Fits` hypothesis on the rendering: `expr()` never nests deeper than the source. -/
+theorem source_roundtrip (regs : Regs) (tb : TableOK regs) (env : LexEnv regs) (rt : RegsText regs)
+    (hnot : regs.isPrefix notName = true) (c : CST) (hc : Canon regs c) (hf : Fits maxDepth c) (hl : LeafOK regs c.strip) :
+    parseTokens regs maxDepth c.flatten = .ok c.strip ∧
+    parseProgram regs (expr regs c.strip) = .ok c.strip := by
+  refine ⟨groups_as_written regs tb maxDepth c hc hf, ?_⟩
+  exact expr_text_reparses regs tb env rt c.strip (canon_producible hnot c hc) hl (expr_fits_of_source regs tb hnot maxDepth c hc hf)
+
+/-- … for everything the parser accepts as one expression, given that its canonical reading nests
+within the limit (which the acceptance itself is believed to imply — the depth accounting `nest`
+mirrors the parser's counter — but that converse is not proved; the nesting-limit stream of the
+check exercises it). -/
+theorem accepted_roundtrip (regs : Regs) (tb : TableOK regs) (env : LexEnv regs) (rt : RegsText regs)
+    (hnot : regs.isPrefix notName = true) (toks : List Tok) (a : AST)
+    (h : parseTokens regs maxDepth toks = .ok a) (hns : ∀ es, a ≠ .stmt es) (hl : LeafOK regs a)
+    (hfit : ∀ c, Canon regs c → c.strip = a → (toks = c.flatten ∨ toks = c.flatten ++ [.semi]) → Fits maxDepth c) :
+    parseProgram regs (expr regs a) = .ok a := by
+  obtain ⟨c, hc, hfl, rfl⟩ := accepted_expression_reading regs tb maxDepth (by decide) toks a h hns
+  exact (source_roundtrip regs tb env rt hnot c hc (hfit c hc rfl hfl) hl).2
+
+/-! ## non-vacuity: a tree with every kind of leaf, through the theorem -/
+
+def exampleTree : AST :=
+  .ternary (.binary ['<'] (.ref ['x', '1']) (.unary ['-'] (.postfix (.postfix (.lit (.num ⟨false, 25, 1⟩)) ['+', '+']) ['-', '-'])))
+    (.call ['f'] [.lit (.str ['i', 't', '\'', 's']), .list [.lit (.bool true)]])
+    (.map [(.lit (.str ['k']), .binary ['='] (.ref ['y']) (.unary notName (.binary ['i', 'n'] (.ref ['z']) (.list [.lit (.num ⟨false, 0, 0⟩)]))))])
+
+theorem example_producible : Producible Regs.builtin exampleTree := by
+  simp only [exampleTree, Producible, ProducibleList, ProducibleMap, and_true, true_and]
+  decide
+
+theorem example_leaves : LeafOK Regs.builtin exampleTree := by
+  have hn : ∀ n : Name, n ∈ [['x', '1'], ['f'], ['y'], ['z']] → NameShape Regs.builtin n := by
+    intro n hn
+    simp only [List.mem_cons, List.not_mem_nil, or_false] at hn
+    rcases hn with rfl | rfl | rfl | rfl <;> exact ⟨_, _, rfl, by decide, by decide, by decide, by decide⟩
+  simp only [exampleTree, LeafOK, LeafOKList, LeafOKMap, and_true, true_and]
+  refine ⟨⟨hn _ (by simp), by decide, by decide⟩, ⟨hn _ (by simp), by decide⟩, by decide, hn _ (by simp), hn _ (by simp), by decide, by decide⟩
+
+theorem example_fits : Fits maxDepth (exprCst Regs.builtin exampleTree) := by unfold Fits; decide
+
+/-- `x1 < - 2.5 ++ -- ? f('it's',[true]) : {"k":y = z not in [0]}` re-parses to the tree it was printed from. -/
+theorem example_roundtrip : parseProgram Regs.builtin (expr Regs.builtin exampleTree) = .ok exampleTree :=
+  expr_text_reparses_builtin exampleTree example_producible example_leaves example_fits
 
 end EE.Props.C12
